@@ -94,6 +94,8 @@ theorem qpi_cancelTimer_other (s : Stack) (own : Cb → Bool) (t : Option Nat) (
     simp only [qpi, cancelTimer, Loop.cancelOpt, Loop.cancel, e1, e2]
 @[simp] theorem qpi_cancelTimer_sub (s : Stack) (t : Option Nat) : qpi (s.cancelTimer isSubExpiry t) = qpi s :=
   qpi_cancelTimer_other s _ t (fun cb h => by cases cb <;> simp_all [isSubExpiry, isCollTimeout])
+@[simp] theorem qpi_cancelTimer_subFor (s : Stack) (i : Nat) (a : Addr) (k : SubKey) (t : Option Nat) : qpi (s.cancelTimer (isSubExpiryFor i a k) t) = qpi s :=
+  qpi_cancelTimer_other s _ t (fun cb h => by cases cb <;> simp_all [isSubExpiryFor, isCollTimeout])
 @[simp] theorem qpi_cancelTimer_sleep (s : Stack) (t : Option Nat) : qpi (s.cancelTimer isSleep t) = qpi s :=
   qpi_cancelTimer_other s _ t (fun cb h => by cases cb <;> simp_all [isSleep, isCollTimeout])
 @[simp] theorem qpi_cancelTimer_svcFor (s : Stack) (a : Addr) (k : SvcKey) (t : Option Nat) : qpi (s.cancelTimer (isSvcExpiryFor a k) t) = qpi s :=
